@@ -1,6 +1,6 @@
 """C02 — decoder results do not depend on how input and output are chunked (structural clauses D1–D6)."""
 import t_dst, r_account, r_preamble, r_resume, r_iso, r_inv, r_inputempty
-import p_c10, p_c01, r_surr, r_pendcount
+import p_c10, p_c01, r_surr, r_pendcount, r_requeue
 
 MANIFEST = {
     'category': 'other',
@@ -17,7 +17,8 @@ MANIFEST = {
             'are structurally isomorphic. Equality of the concatenated output with the one-shot result over all histories '
             '(which needs the semantics of every body) is not decided. ' 
             '(R-SURR) every surrogate-class test on the decoder side (UTF-16 decoder bodies, the copy_utf16_from fast paths including the hold-back of a trailing high surrogate at a chunk or output boundary, convert_unaligned_utf16_to_utf8) denotes exactly D800-DBFF, DC00-DFFF or D800-DFFF, so a pair is never split differently depending on where the chunk or the output ends. ' 
-            '(R-PENDCOUNT) for the two decoders that keep an unfinished sequence in an enum (EUC-JP, gb18030), Pending::count() — reported as the malformed length when the stream ends there — agrees with the bytes actually taken: on every path from a loop head to `return InputEmpty` that stores a non-None variant, count(variant) minus the number of byte reads on the path is the same for all variants (the byte already in hand at that head).',
+            '(R-PENDCOUNT) for the two decoders that keep an unfinished sequence in an enum (EUC-JP, gb18030), Pending::count() — reported as the malformed length when the stream ends there — agrees with the bytes actually taken: on every path from a loop head to `return InputEmpty` that stores a non-None variant, count(variant) minus the number of byte reads on the path is the same for all variants (the byte already in hand at that head). ' 
+            '(R-REQUEUE) on every path that ends in Malformed(len, after) with after > 0 (gb18030: 8 paths, resume and in-loop) the bytes of the current sequence are ordered chronologically (payload of the matched pending variant, byte in hand, reads minus unread) and every value stored into a state field derives only from the `after` re-queued bytes, never from the malformed ones, and each re-queued byte reaches a state field.',
     'note': 'Trusted: rustc MIR, mirx, rule library; the frozen tables of deferred-output and pending-input fields (confirmed by reading).',
     'technique': 'MIR dataflow (may-analysis), control-dependence taint rule, bounded path summaries, sibling-expansion comparison',
 }
@@ -45,6 +46,8 @@ def run(rep, facts, tier):
         r_iso.run(rep, f, c, 'R-ISO', '::decode_to_utf8_raw', '::decode_to_utf16_raw', 8)
         r_inv.run(rep, f, c, 'R-INV')
         r_pendcount.run(rep, f, c)
+        n = r_requeue.run(rep, f, c)
+        rep.floor('R-REQUEUE', 'Malformed(len, after>0) paths with re-queued bytes', n, 8, c)
         n = r_surr.run(rep, f, c, 'R-SURR', p_c01.DEC_SURR_SCOPE)
         rep.floor('R-SURR', 'surrogate-class tests on the decoder side', n, 10, c)
     return ('other', MANIFEST['text'], [])
